@@ -767,11 +767,13 @@ class Background2D:
         This image is equivalent to the low-resolution "MINIBACK"
         background map check image in SourceExtractor.
         """
-        data = self._interpolate_grid(self._bkg_stats)
+        data = self._filter_grid(self._interpolate_grid(self._bkg_stats))
+        # the selective filter (filter_threshold) needs the box
+        # statistics, so they can be deleted only after filtering
         if ('background_rms_mesh' in self.__dict__
                 or self.filter_threshold is None):
             self._bkg_stats = None  # delete to save memory
-        return self._apply_units(self._filter_grid(data))
+        return self._apply_units(data)
 
     @lazyproperty
     def background_rms_mesh(self):
